@@ -121,6 +121,24 @@ def model(repo):
             return ("eob", v)
         if isinstance(v, ast.Constant) and v.value is None:
             return ("none", v)
+        # next((x for x in offsets[col+1:] if x >= 0), <default>): the first non-negative following offset, else the default
+        if isinstance(v2, ast.Call) and call_name(v2) == "next" and v2.args and isinstance(v2.args[0], ast.GeneratorExp) and len(v2.args[0].generators) == 1 and not v2.keywords:
+            g = v2.args[0].generators[0]
+            base_ = g.iter
+            tail_ = isinstance(base_, ast.Subscript) and isinstance(base_.slice, ast.Slice) and U(base_.value) in offs_names and base_.slice.upper is None \
+                and base_.slice.lower is not None and U(base_.slice.lower).replace(" ", "") in (f"{col}+1", f"1+{col}") and base_.slice.step is None
+            if not tail_ and isinstance(base_, ast.Subscript) and U(base_.value) in offs_names:
+                return ("wrong-range", v)
+            if tail_ and isinstance(g.target, ast.Name) and U(v2.args[0].elt) == g.target.id:
+                x_ = g.target.id
+                guarded_ = len(g.ifs) == 1 and U(g.ifs[0]).replace(" ", "") in (f"{x_}>=0", f"0<={x_}", f"{x_}>-1")
+                kinds_ = ["next" if guarded_ else "unguarded"]
+                if len(v2.args) == 2:
+                    d_ = U(v2.args[1]).replace(" ", "")
+                    kinds_.append("eob" if d_ == f"len({buf})" else ("none" if d_ == "None" else "?"))
+                else:
+                    kinds_.append("?")  # StopIteration when nothing follows
+                return ("+".join(kinds_), v)
         # an element of offsets[col+1:] guarded by `>= 0`, first match
         p = where
         loop_ = None
@@ -188,10 +206,12 @@ def model(repo):
             cands.append(classify_value(expr, scope_func, mapping, expr))
 
     collect(end_expr, f, {})
-    kinds = {k for k, _ in cands}
+    kinds = {k2 for k, _ in cands for k2 in k.split("+")}
     out["end_kinds"] = sorted(kinds)
     if "?" in kinds:
-        raise AnalysisError(f"get_storage_buffers_for_row: a value flowing into the end of the record is not recognised: {[U(n) for k, n in cands if k == '?'][:2]}")
+        raise AnalysisError(f"get_storage_buffers_for_row: a value flowing into the end of the record is not recognised: {[U(n) for k, n in cands if '?' in k.split('+')][:2]}")
+    if "wrong-range" in kinds:
+        P(f"the next offset is searched in `{[U(n) for k, n in cands if 'wrong-range' in k][0][:70]}`, not in the offsets after the cell's own: the record ends at its own start or at an earlier cell")
     if "unguarded" in kinds:
         P("the next offset is taken without checking that it is non-negative: an empty column after the cell ends the record at a negative index")
     if "not-first" in kinds:
